@@ -2,6 +2,7 @@
 import common as C
 from props._runcommon import RUN_TRUSTED, RUN_ASSUMPTIONS, PropRunStream
 from run import selftest as W
+from run import witnesses2 as W2
 
 PROPERTY = "C07"
 LEAN_MODULES = ["LccModel.Props.C07", "LccModel.Props.C07Run"]
@@ -53,7 +54,7 @@ class Run(PropRunStream):
     oracles = ("C07",)
     quick_cases = 330
     quick_seconds = 50
-    corpus = [witness("D1 "), witness("D3 ")]
+    corpus = [witness("D1 "), witness("D3 ")] + W2.CONTROLS
 
 
 def streams(ctx):
